@@ -61,7 +61,9 @@ def expected_arms():
     }
 INSIGNIFICANT = re.compile(
     r"(^std::(vec|slice|option|result|string|iter|path|boxed|mem|borrow|ops|hint)::|^<std::(vec|string|path|option|slice|boxed)::|"
-    r"^<T as std::string::ToString>::to_string$|IOCtx::make_error|^<I as std::iter::IntoIterator>|^<str as |^std::str::)")
+    r"^<T as std::string::ToString>::to_string$|IOCtx::make_error|^<I as std::iter::IntoIterator>|^<str as |^std::str::|"
+    # borrowing accessors of AbsPath: views of a value, no effect
+    r"AbsPath::as_path$|AbsPath::as_path_buf$|^<txtpp::fs::path::abs_path::AbsPath as std::(convert::AsRef|ops::Deref|clone::Clone|fmt::Display))")
 
 
 def significant(nm):
@@ -99,6 +101,7 @@ def r01_1(ctx):
     tested = set()
     for eid in me:
         tested |= C.region(ed, {eid})
+    arm_blocks, yield_blocks = set(), set()
     for v in DT:
         # blocks that are reached for this type and only for types with the same documented behaviour, outside Clean (the Clean arm has
         # its own, smaller dispatch: C07), behind at least one test of the type
@@ -107,6 +110,9 @@ def r01_1(ctx):
         if not reg:
             ctx.anchor_missing("arm for DirectiveType::%s in execute_directive" % v)
             continue
+        arm_blocks |= reg
+        if expected_arms()[v][1]:
+            yield_blocks |= reg
         calls = _effect_calls(ed, reg)
         sig = {C.callee_name(t) for bb, t in calls if significant(C.callee_name(t))}
         want, yields = expected_arms()[v]
@@ -138,6 +144,45 @@ def r01_1(ctx):
             ctx.violation([v, "; ".join(probs)[:200]], "directive `%s`: %s" % (v.lower(), "; ".join(probs)), site=site)
         else:
             ctx.ok("arm %s: effects %s, yields %s" % (v, sorted(x.rsplit("::", 1)[-1] for x in sig), "output" if yields else "nothing"), site=site)
+
+    # .. and what an output-producing arm yields is what execute_directive returns: no `None` is made for such a directive AFTER the arms
+    # (`raw_output.filter(|o| !o.is_empty())`: an empty output is still the output the listening tag must store, and still a piece of
+    # output for the line processor)
+    yielding = {w for w in DT if expected_arms()[w][1]}
+    # (the arms of the main dispatch — the test with the most type edges — not the single-type stretches of an earlier test such as
+    # "is this an include?" of the dependency lookup)
+    by_sw = {}
+    for eid in me:
+        by_sw.setdefault(eid[0], set()).add(eid)
+    opt_blocks = {bb for bb, si, st in ed.stmts() if st["k"] == "assign" and st["rv"]["k"] == "aggregate"
+                  and st["rv"]["agg"].get("adt") == "std::option::Option"
+                  and ed.locals[st["lhs"]["l"]]["ty"] == "std::option::Option<std::string::String>"}
+
+    def sw_region(edges):
+        r = set()
+        for eid in edges:
+            r |= C.region(ed, {eid})
+        return r
+    # (another full match on the type — `d.directive_type.error_kind()` inside an error path — is not the dispatch: the dispatch is the
+    # one whose arms build the Option<String> values)
+    main_edges = max(by_sw.values(), key=lambda es: (len(es), len(sw_region(es) & opt_blocks)))
+    main_region = sw_region(main_edges)
+    yield_blocks &= main_region
+    after_arms = set()
+    for a in yield_blocks:
+        if a not in after_arms:
+            after_arms |= ed.reachable(a)
+    late = [(bb, st) for bb, si, st in ed.stmts() if st["k"] == "assign" and st["rv"]["k"] == "aggregate"
+            and st["rv"]["agg"].get("adt") == "std::option::Option" and st["rv"]["agg"].get("variant") == "None"
+            and ed.locals[st["lhs"]["l"]]["ty"] == "std::option::Option<std::string::String>"
+            and bb in after_arms and bb in non_clean and bb not in arm_blocks and ({w for w in DT if bb in vis[w]} & yielding)]
+    if late:
+        bb, st = late[0]
+        ctx.violation(["output-dropped-after-arm"], "execute_directive can replace the output of %s by None after the directive was executed: an empty "
+                      "output is still the output (a listening tag stores it)" % sorted(w.lower() for w in DT if bb in vis[w] and w in yielding),
+                      site=ctx.site(ed, bb))
+    else:
+        ctx.ok("no None is made for an output-producing directive outside its arm", site=ctx.site(ed, 0))
 
 
 @rule("C01", "R01.2", floor=2)
@@ -811,6 +856,17 @@ def r15_4(ctx):
             ctx.violation(["marker-find"], "detect_from no longer locates the marker with a single forward find(TXTPP_HASH)", site=ctx.site(df, 0))
 
 
+def _tag_emits(inj):
+    """where inject_tags emits normalised tag content: (bb, terminator, operand that carries the content) — pushed onto the result / a list of
+    pieces, or spliced into a copy of the line in place (replace_range / insert_str)"""
+    out = []
+    for bb, t in calls_to(inj, ("std::string::String::push_str", "std::vec::Vec::<T, A>::push")):
+        out.append((bb, t, t["args"][1]))
+    for bb, t in calls_to(inj, ("std::string::String::replace_range", "std::string::String::insert_str")):
+        out.append((bb, t, t["args"][2]))
+    return [(bb, t, a) for bb, t, a in out if has_call(deep_leaves(inj, a, through_fields=True), ROLE["replace_line_ending"])]
+
+
 @rule("C14", "R14.6", floor=3)
 def r14_6(ctx):
     """tag store discipline: try_store moves the listening tag into `stored` with the offered content and stops listening;
@@ -851,8 +907,9 @@ def r14_6(ctx):
     inj = body(ctx, "tag_inject")
     if inj:
         # where normalised tag content is emitted: pushed onto the result string, or onto a list of pieces that is concatenated later
-        pushes_val = [(bb, t) for bb, t in calls_to(inj, ("std::string::String::push_str", "std::vec::Vec::<T, A>::push"))
-                      if has_call(deep_leaves(inj, t["args"][1], through_fields=True), ROLE["replace_line_ending"])]
+        emits = _tag_emits(inj)
+        pushes_val = [(bb, t) for bb, t, a in emits]
+        emit_arg = {id(t): a for bb, t, a in emits}
         # where a used tag is queued for removal: a push / insert of something that is neither content nor a slice of the line
         is_piece = lambda t: any(l.kind == "call" and (C.callee_name(l.data).endswith("Index<I> for str>::index") or
                                                        C.callee_name(l.data) == ROLE["replace_line_ending"])
@@ -891,7 +948,7 @@ def r14_6(ctx):
             has_field(C.trace(inj, l.data["args"][0], through_fields=True), "stored") for l in c.src))
         if pushes_val and rm_some and all(C.guarded(inj, bb, rm_some) for bb, t in pushes_val) and all(
                 has_call(C.trace(inj, x.data["args"][0]), "std::collections::HashMap::<K, V, S, A>::remove")
-                for bb, t in pushes_val for x in C.trace(inj, t["args"][1], through_fields=True) if leaf_is_call(x, ROLE["replace_line_ending"])):
+                for bb, t in pushes_val for x in C.trace(inj, emit_arg[id(t)], through_fields=True) if leaf_is_call(x, ROLE["replace_line_ending"])):
             ctx.ok("inject_tags substitutes exactly the value it has just removed from the store", site=ctx.site(inj, pushes_val[0][0]))
         elif removal_ok and pushes_val and key_push:
             # the key is queued for removal on every path that substituted its value (before the next loop iteration / exit)
@@ -909,6 +966,13 @@ def r14_6(ctx):
                 ctx.ok("inject_tags queues every substituted tag for removal and removes the queued tags", site=ctx.site(inj, rem[0][0]))
             else:
                 ctx.violation(["used-not-removed"], "a substituted tag is not always removed from the store (it could be substituted again)", site=ctx.site(inj, pushes_val[0][0]))
+        elif not pushes_val and any(has_call(deep_leaves(inj, t["args"][2], through_fields=True), ROLE["replace_line_ending"])
+                                     for bb, t in calls_to(inj, ("std::str::<impl str>::replacen", "std::str::<impl str>::replace")) if len(t["args"]) > 2):
+            ctx.violation(["rescan"], "inject_tags splices tag content in by searching the partially substituted line again (replace / replacen): a tag "
+                          "name that occurs inside content injected earlier is replaced, the real occurrence stays", site=ctx.site(inj, 0))
+        elif not pushes_val:
+            ctx.unverified("inject_tags emits tag content in no reviewed way (push of / in-place splice of the normalised value): store discipline "
+                           "not decided for this algorithm", site=ctx.site(inj, 0))
         else:
             ctx.violation(["remove-missing"], "inject_tags no longer removes used tags from the store", site=ctx.site(inj, 0))
         # first occurrence only: positions come from str::find (not rfind / match_indices)
@@ -1495,6 +1559,10 @@ def r11_8(ctx):
                                                any(x.kind == "param" and ri.local_name(x.data) == "inputs"
                                                    for x in C.trace(ri, l.data["args"][0], transparent=lambda t: C.is_transparent(t) or T.item_preserving(C.callee_name(t))))
                                                for l in c.src))
+    item_pres = lambda t: C.is_transparent(t) or T.item_preserving(C.callee_name(t))
+    # the loop over the inputs (not a loop inside a spliced helper, e.g. over the components of one input)
+    heads = [(bb, t) for bb, t in heads if any(x.kind == "param" and ri.local_name(x.data) == "inputs"
+                                                for x in C.trace(ri, t["args"][0], transparent=item_pres))]
     if not heads or not some_e:
         ctx.anchor_missing("loop over the inputs in resolve_inputs")
         return
@@ -1509,6 +1577,40 @@ def r11_8(ctx):
                       witness=C.witness(ri, esc[0], out_edges(ri, pushes + list(errs))))
     else:
         ctx.ok("every input is scheduled or is an error", site=ctx.site(ri, heads[0][0]))
+
+
+@rule("C11", "R11.14", floor=1)
+def r11_14(ctx):
+    """a requested input names `base/<input>` with the input as typed: what resolve_inputs joins onto the base directory is the item of the
+    input list itself (borrowed, converted, cloned — not rewritten). Lexical clean-up of the typed path before the join (`..` folded by
+    hand) can change which file is meant: `../../a.txt` folded to `a.txt` processes a file nobody requested, or reports a valid one missing."""
+    lib = ctx.lib
+    ri = body(ctx, "resolve_inputs")
+    if not ri:
+        return
+    pb = ri.param_index_by_name("base_abs_path")
+    copies = lambda t: C.is_transparent(t) or T.item_preserving(C.callee_name(t)) or (C.callee_name(t) or "").endswith(
+        ("::as_ref", "::deref", "::as_str", "::as_path", "::clone", "::to_owned", "::to_path_buf", "::into", "::borrow")) or \
+        C.callee_name(t) in ("std::path::Path::new", "<std::path::PathBuf as std::convert::From<T>>::from", "<T as std::convert::From<T>>::from")
+    joins = []
+    for bb, t in ri.calls():
+        nm = C.callee_name(t)
+        if nm in ("std::path::Path::join", "std::path::PathBuf::push") and len(t["args"]) > 1:
+            recv = C.trace(ri, t["args"][0], through_fields=True, transparent=copies)
+            if pb is not None and any(l.kind == "param" and l.data == pb for l in recv):
+                joins.append((bb, t))
+    if not joins:
+        ctx.unverified("no `base.join(input)` in resolve_inputs in the reviewed shape", site=ctx.site(ri, 0))
+        return
+    for bb, t in joins:
+        lv = C.trace(ri, t["args"][1], transparent=copies)
+        item = lambda l: (l.kind == "call" and C.callee_name(l.data).endswith("as std::iter::Iterator>::next")) or \
+            (l.kind == "param" and ri.local_name(l.data) == "inputs")
+        if lv and all(item(l) for l in lv):
+            ctx.ok("the path joined onto the base is the input as typed", site=ctx.site(ri, bb))
+        else:
+            ctx.violation([ri.name, "input-rewritten"], "what resolve_inputs joins onto the base directory is not the requested input as typed (%s): a "
+                          "different file than the one named can be processed" % sorted({repr(l) for l in lv if not item(l)})[:3], site=ctx.site(ri, bb))
 
 
 @rule("C10", "R10.5", floor=1)
@@ -2104,8 +2206,13 @@ def _cli_field_flow(ctx, fn_suffix, pairs):
     b = ctx.role(binp, fn_suffix)
     if not b:
         return
-    copies = lambda tt: C.is_transparent(tt) or T.item_preserving(C.callee_name(tt)) or \
-        (C.callee_name(tt) or "").endswith(("::to_vec", "::to_owned", "::clone", "::to_string", "::into", "::collect"))
+    CONV = ("std::convert::Into::into", "std::convert::From::from", "std::string::ToString::to_string", "std::borrow::ToOwned::to_owned",
+            "std::clone::Clone::clone")
+    # `.map(Into::into)` / `.map(String::from)`: an element-wise conversion named as a function item copies the items
+    conv_map = lambda tt: C.callee_name(tt) in ("std::iter::Iterator::map", "std::option::Option::<T>::map") and len(tt.get("arg_tys", [])) > 1 and \
+        (tt["arg_tys"][1].get("fndef") in CONV or str(tt["arg_tys"][1].get("fndef")).endswith(("::from", "::into")))
+    copies = lambda tt: C.is_transparent(tt) or T.item_preserving(C.callee_name(tt)) or conv_map(tt) or \
+        (C.callee_name(tt) or "").endswith(("::to_vec", "::to_owned", "::clone", "::to_string", "::into", "::collect", "::into_iter"))
     for dst, src in pairs:
         vals = field_values(b, CLI_CONFIG, dst)
         if not vals:
@@ -2119,7 +2226,10 @@ def _cli_field_flow(ctx, fn_suffix, pairs):
                 lv = C.trace(b, op, through_fields=True, transparent=copies) if op is not None else []
                 fine_call = True
             is_flag = lambda l: l.kind == "field" and has_field([l], src) and not any(o in CLI_CONFIG for (o, v, n) in C.pl_fields(l.data))
-            from_default = bool(lv) and all(l.kind == "field" and any(o in CLI_CONFIG for (o, v, n) in C.pl_fields(l.data)) for l in lv)
+            is_default_call = lambda l: l.kind == "call" and re.search(r"^<(%s) as std::default::Default>::default$" % "|".join(map(re.escape, CLI_CONFIG)),
+                                                                       C.callee_name(l.data) or "")
+            from_default = bool(lv) and any(l.kind == "field" for l in lv) and all(
+                (l.kind == "field" and any(o in CLI_CONFIG for (o, v, n) in C.pl_fields(l.data))) or is_default_call(l) for l in lv)
             if from_default:
                 continue        # `..Config::default()`: not the value the command line decides
             # (through_fields also reports the containers the flag sits in: `args.flags`, and where `args` comes from: Parser::parse)
@@ -2210,9 +2320,8 @@ def r14_9(ctx):
     inj = body(ctx, "tag_inject")
     if not inj:
         return
-    subst = [bb for bb, t in calls_to(inj, ("std::string::String::push_str", "std::vec::Vec::<T, A>::push"))
-             if has_call(deep_leaves(inj, t["args"][1], through_fields=True), ROLE["replace_line_ending"])]
-    heads = [bb for bb, t in inj.calls() if C.callee_name(t).endswith("Iterator>::next") and inj.in_cycle(bb)]
+    subst = [bb for bb, t, a in _tag_emits(inj)]
+    heads = [bb for bb, t in inj.calls() if C.callee_name(t).endswith(("Iterator>::next", "DoubleEndedIterator>::next_back", "Vec::<T, A>::pop")) and inj.in_cycle(bb)]
     if not subst or not heads:
         ctx.unverified("substitution loop of inject_tags not in the reviewed shape (no push of normalised content inside a loop)", site=ctx.site(inj, 0))
         return
@@ -2236,6 +2345,120 @@ def r14_9(ctx):
         ctx.unverified("no ordering test that skips an occurrence found in the substitution loop", site=ctx.site(inj, 0))
 
 
+def _sort_direction(lib, inj, t):
+    """+1 ascending, -1 descending, 0 unknown — for one sort call of inject_tags"""
+    nm = C.callee_name(t)
+    cl = lib.bodies.get((t["arg_tys"][1].get("closure") if len(t.get("arg_tys", [])) > 1 else "") or "")
+    if re.search(r"::(sort|sort_unstable)$", nm):
+        return 1
+    if cl is None:
+        return 0
+    if re.search(r"::(sort_by_key|sort_unstable_by_key|sort_by_cached_key)$", nm):
+        return 0 if "Reverse" in cl.locals[0]["ty"] else 1
+    # comparator: one cmp / partial_cmp call whose operands derive from (a, b) in this order
+    cmps = [ct for cbb, ct in cl.calls() if re.search(r"::(cmp|partial_cmp)$", C.callee_name(ct))]
+    if len(cmps) != 1 or any(C.callee_name(ct).endswith(("Ordering::reverse", "::rev")) for cbb, ct in cl.calls()):
+        return 0
+    def params(op):
+        return {l.data for l in C.trace(cl, op, through_fields=True) if l.kind == "param"}
+    a, b = params(cmps[0]["args"][0]), params(cmps[0]["args"][1])
+    if len(a) == 1 and len(b) == 1 and a != b:
+        return 1 if min(a) < min(b) else -1          # closure locals: _1 = environment, _2 = first element, _3 = second element
+    return 0
+
+
+@rule("C14", "R14.10", floor=1)
+def r14_10(ctx):
+    """of two overlapping occurrences the LEFT one wins: the loop that holds the overlap test walks the candidates in ascending order of
+    position — sorted ascending and consumed front to back (or descending and back to front); a reversed walk makes the rightmost win"""
+    lib = ctx.lib
+    inj = body(ctx, "tag_inject")
+    if not inj:
+        return
+    subst = [bb for bb, t, a in _tag_emits(inj)]
+    sorts = [(bb, t) for bb, t in inj.calls() if T.SORT_RE.match(C.callee_name(t) or "")]
+    heads = [(bb, t) for bb, t in inj.calls() if C.callee_name(t).endswith(("Iterator>::next", "DoubleEndedIterator>::next_back", "Vec::<T, A>::pop"))
+             and inj.in_cycle(bb)]
+    if not subst or not sorts or not heads:
+        ctx.unverified("substitution loop of inject_tags not in the reviewed shape (sort, loop, emission)", site=ctx.site(inj, 0))
+        return
+    direction = {_sort_direction(lib, inj, t) for bb, t in sorts}
+    decided = 0
+    for sbb in C.switches(inj):
+        c = C.switch_cond(inj, sbb)
+        if c.kind != "bool" or not inj.in_cycle(sbb) or not any(l.kind == "binop" and l.data["op"] in ("Lt", "Le", "Gt", "Ge") for l in c.src):
+            continue
+        # an overlap test: one of its edges bypasses the emission
+        hb = [h for h, t in heads]
+        if all(any(x in C.after_edges(inj, {eid}, cut=out_edges(inj, hb)) for x in subst) for eid, succ, lab in inj.edges(sbb)):
+            continue
+        for hbb, ht in heads:
+            if not (sbb in inj.reachable(hbb) and hbb in inj.reachable(sbb)):
+                continue
+            nm = C.callee_name(ht)
+            rev = nm.endswith(("next_back", "::pop"))
+            it_leaves = C.trace(inj, ht["args"][0], through_fields=True)
+            n_rev = sum(1 for l in it_leaves if l.kind == "call" and C.callee_name(l.data) == "std::iter::Iterator::rev")
+            if "std::iter::Rev<" in nm:
+                n_rev = max(n_rev, 1)
+            backwards = rev ^ (n_rev % 2 == 1)
+            decided += 1
+            if direction == {1} and not backwards or direction == {-1} and backwards:
+                ctx.ok("the loop with the overlap test sees the occurrences from left to right", site=ctx.site(inj, hbb))
+            elif direction in ({1}, {-1}):
+                ctx.violation([inj.name, "right-to-left"], "the loop that skips overlapped occurrences walks them from right to left: of two overlapping "
+                              "tags the RIGHT one is substituted (the documented winner is the leftmost)", site=ctx.site(inj, hbb))
+            else:
+                ctx.unverified("direction of the candidate sort not recognised", site=ctx.site(inj, hbb))
+    if not decided:
+        ctx.unverified("no overlap test found in a loop over the sorted candidates", site=ctx.site(inj, 0))
+
+
+@rule("C15", "R15.9", floor=2)
+def r15_9(ctx):
+    """one grammar for both passes: which lines start / continue / end a directive is decided by detect_from and add_line in every pass —
+    neither call (nor the store that keeps a directive open) sits behind a test of the pass mode (`pp_mode`: first pass / collecting
+    dependencies / second pass). A cheaper stand-in predicate for the dependency scan is a second grammar that must agree on every line."""
+    lib = ctx.lib
+    for role_name in ("iterate_directive", "get_next_line"):
+        b = body(ctx, role_name)
+        if not b:
+            continue
+        sites = []
+        for bb, t in b.calls():
+            if any(n in (ROLE["detect_from"], ROLE["add_line"], ROLE["next_line"]) for n in C.callee_names(t)):
+                sites.append((bb, C.callee_name(t).rsplit("::", 1)[-1]))
+        for bb, si, st in b.stmts():
+            if st["k"] == "assign" and st["lhs"]["p"] and st["lhs"]["p"][-1].get("name") in ("cur_directive", "execute_tail_line"):
+                sites.append((bb, "store " + st["lhs"]["p"][-1]["name"]))
+        if role_name == "iterate_directive" and not {"detect_from", "add_line"} <= {w for bb, w in sites}:
+            ctx.anchor_missing("detect_from and add_line calls in iterate_directive")
+            continue
+        pps = []
+        for sbb in C.switches(b):
+            c = C.switch_cond(b, sbb)
+            if has_field(c.src, "pp_mode") or (c.adt or "").endswith("::PpMode") or any(
+                    l.kind == "call" and "PpMode" in C.callee_name(l.data) for l in c.src):
+                pps.append(sbb)
+        live = C.live(b)
+        for bb, what in sites:
+            bad = None
+            for sbb in pps:
+                es = [eid for eid, succ, lab in b.edges(sbb)]
+                for e in es:
+                    if not C.after_edges(b, {e}):
+                        continue
+                    if bb in live and C.guarded(b, bb, set(es) - {e}):
+                        # reachable through this switch, but not when `e` is the only edge taken
+                        bad = sbb
+            if bad is None:
+                ctx.ok("%s|%s does not depend on the pass mode" % (role_name, what), site=ctx.site(b, bb))
+            else:
+                ctx.violation([b.name, "pass-dependent-parse", what], "`%s` in %s happens only for some values of the pass mode (test at %s): the "
+                              "dependency scan and the executing pass can disagree about which lines belong to a directive"
+                              % (what, role_name, ctx.site(b, bad)["loc"]), site=ctx.site(b, bb))
+
+
 @rule("C02", "R02.13", floor=1)
 def r02_13(ctx):
     """the dependency lookup recognises every documented spelling of a source: the candidates get_txtpp_file probes are the requested name
@@ -2248,6 +2471,77 @@ def r16_11(ctx):
     """text written by a directive keeps its own final line break: the flag handed to the formatter is `ends_with('\\n')` of the raw
     output, not a test for the file's line ending (= C01 R01.9)"""
     r01_9(ctx)
+
+
+@rule("C01", "R01.13", floor=1)
+def r01_13(ctx):
+    """a well-formed project is never failed by the coordinator itself: the only errors the coordinator constructs (rather than passes on
+    from a worker or an IO call) are made after the receive loop has drained — a cycle check run early, on a partially known graph, can
+    mistake a diamond for a loop (= C05 R05.5)"""
+    import rules_sched
+    rules_sched.r05_5(ctx)
+
+
+@rule("C13", "R13.5", floor=4)
+def r13_5(ctx):
+    """every line ending but the last is written where it is decided: the line processor hands the separator to write_output itself, before
+    the next content (= C01 R01.6) — a separator parked in a queue reaches the file only with a later write, which the trailing-newline
+    option may suppress: the option would then control more than one line ending"""
+    r01_6(ctx)
+
+
+@rule("C16", "R16.12", floor=9)
+def r16_12(ctx):
+    """a line is a directive only if what follows the marker up to the first space is exactly a directive name (= C15 R15.1): with any
+    looser split (letters only, any whitespace, punctuation) ordinary text that merely mentions `TXTPP#name` is taken for a directive
+    and disappears from the output"""
+    r15_1(ctx)
+
+
+@rule("C14", "R14.11", floor=7)
+def r14_11(ctx):
+    """every output-producing directive offers its output to the listening tag, empty or not: the arms of `run`, `include` and `write` yield
+    Some(output) and execute_directive hands that on unchanged (= C01 R01.1) — an empty output that becomes None leaves the tag listening:
+    it captures a later directive's output or is reported unused"""
+    r01_1(ctx)
+
+
+@rule("C16", "R16.13", floor=1)
+def r16_13(ctx):
+    """what a directive produced reaches the tag store and the formatter as produced (= C14 R14.3): nothing is stripped from the raw output
+    on the way (a leading U+FEFF removed "because it came from an included file" is also removed from text written with `write`)"""
+    r14_3(ctx)
+
+
+@rule("C03", "R03.11", floor=3)
+def r03_11(ctx):
+    """nothing of a file is executed twice in one build: a first pass that finds a dependency with a .txtpp source executes no directive
+    from there on (= C02 R02.2) — the file is run again from the top as its second pass, so whatever the first pass had gone on to execute
+    (a `run` command, a `temp` write between two includes) would happen twice"""
+    import rules_sched
+    rules_sched.r02_2(ctx)
+
+
+@rule("C07", "R07.10", floor=1)
+def r07_10(ctx):
+    """the name the temp guard judges is the name that is written and removed: write_temp_file resolves its `temp_path` parameter as given
+    (= C10 R10.2) — a path normalised after the "not a txtpp file" guard has seen it (`notes.txtpp\\` → `notes.txtpp`) lets clean delete
+    a source"""
+    wt = body(ctx, "write_temp_file")
+    if not wt:
+        return
+    sites = calls_to(wt, ROLE["try_resolve"])
+    if not sites:
+        ctx.anchor_missing("try_resolve call in write_temp_file")
+        return
+    for bb, t in sites:
+        lv = C.trace(wt, t["args"][1])
+        if has_param(lv, wt, "temp_path") and all(l.kind == "param" for l in lv):
+            ctx.ok("write_temp_file resolves temp_path as given", site=ctx.site(wt, bb))
+        else:
+            ctx.violation([wt.name, "temp-path-rewritten"], "write_temp_file resolves something other than its temp_path parameter as given (%s): the "
+                          "guard against txtpp-looking temp targets judged a different name than the one written / removed"
+                          % sorted({l.describe() if hasattr(l, "describe") else repr(l) for l in lv})[:3], site=ctx.site(wt, bb))
 
 
 @rule("C09", "R09.6", floor=1)
